@@ -140,6 +140,7 @@ def cases(tier):
         yield {'fam': 'law', 'value': vid}
         yield {'fam': 'null', 'value': vid}
         yield {'fam': 'stage', 'value': vid}
+    yield {'fam': 'commas'}
     for i in range(len(TEXTS)):
         yield {'fam': 'trunc', 'value': 'str:%d' % i}
         yield {'fam': 'trunc', 'value': 'bytes:%d' % i}
@@ -175,12 +176,61 @@ def run_perm(res, case):
 
 # ---------------------------------------------------------------- laws
 
-NUMERIC = re.compile(r'^-?[0-9]+(\.[0-9]+)?$')
+NUMERIC = re.compile(r'^-?[0-9]+(\.[0-9]+)?\Z')
 
 
 def commas(text):
-    m = re.match(r'^(-?)([0-9]+)((\.[0-9]+)?)$', text)
-    return m.group(1) + format(int(m.group(2)), ',') + m.group(3)
+    """the digits of the integer part in groups of three from the right;
+    no digit is added, dropped or changed (leading zeros stay)"""
+    m = re.match(r'^(-?)([0-9]+)((\.[0-9]+)?)\Z', text)
+    d = m.group(2)
+    groups = []
+    while d:
+        groups.insert(0, d[-3:])
+        d = d[:-3]
+    return m.group(1) + ','.join(groups) + m.group(3)
+
+
+# further values for the thousands_commas law only
+COMMA_TEXTS = ['0012345', '007', '0000', '1000', '999', '-1234', '100000',
+               '12345678901234567890', '0.5', '1000.0001', '-0012.50',
+               '$1234', 'abc 1234567 def', 'x1234', '1234.5678.9012',
+               '\u0661\u0662\u0663\u0664\u0665', '\uff11\uff12\uff13\uff14',
+               '1234\n', ' 1234', '1234 ', '+1234', '1e20', '12_345']
+
+
+def run_commas(res, case):
+    n = nt = 0
+    for text in COMMA_TEXTS:
+        for v in (text, text.encode('utf-8')):
+            for src in ('<dtml-var x thousands_commas>',
+                        '<dtml-var x fmt=comma-numeric>',
+                        '&dtml.thousands_commas-x;'):
+                got = rend(src, x=v)
+                n += 1
+                out = got[1] if got[0] == 'ok' else None
+                if isinstance(out, bytes):
+                    out = out.decode('utf-8')
+                kind = 'bytes' if isinstance(v, bytes) else 'str'
+                if not isinstance(out, str):
+                    res.violate('law', 'law:thousands_commas:exc:' + kind,
+                                {'value': repr(v), 'source': src,
+                                 'got': repr(got)})
+                    continue
+                if NUMERIC.match(text):
+                    nt += 1
+                    if out != commas(text):
+                        res.violate('law', 'law:thousands_commas:' + kind,
+                                    {'value': repr(v), 'source': src,
+                                     'got': out, 'expected': commas(text)})
+                elif out.replace(',', '') != text.replace(',', ''):
+                    # whatever is grouped, only separators may be inserted
+                    res.violate('law', 'law:thousands_commas-only-commas:'
+                                + kind, {'value': repr(v), 'source': src,
+                                         'got': out})
+    res.evals = n
+    res.nt_count = nt
+    res.sample = {'values': COMMA_TEXTS[:4], 'option': 'thousands_commas'}
 
 
 def sql_ref(s):
@@ -453,7 +503,7 @@ def run_null(res, case):
     res.sample = {'value': repr(v), 'tag': tag(['null="N_n"', 'upper'])}
 
 
-RUNNERS = {'perm': run_perm, 'law': run_law, 'round': run_round,
+RUNNERS = {'perm': run_perm, 'law': run_law, 'commas': run_commas, 'round': run_round,
            'trunc': run_trunc, 'stage': run_stage, 'null': run_null}
 
 
